@@ -951,6 +951,8 @@ def _respan(rng, span):
         a = labs[0] + rng.choice([1, -1, 2, -2])
         return {'kind': 'range', 'type': 'range', 'labels': list(range(a, a + len(labs)))}
     new = (max(labs) + 1) if ints else 'n%d' % rng.randint(0, 99)
+    while new in labs:                                  # labels stay distinct (duplicates are outside C10's / this property's scope)
+        new = 'n%d' % rng.randint(100, 9999)
     if how == 'drop_first' and len(labs) > 1:
         labs = labs[1:] + [new]
     elif how == 'prepend':
